@@ -24,12 +24,50 @@ fn atoms() -> Vec<Value> {
         json!(0.5),
         json!(-0.001),
         json!(1e300),
+        // a string that is, as a whole, template syntax
+        json!("{{ a }}"),
+    ]
+}
+
+/// the value holds a string that is exactly one template
+fn template_like(v: &Value) -> bool {
+    match v {
+        Value::String(s) => s.starts_with("{{") && s.ends_with("}}"),
+        Value::Array(a) => a.iter().any(template_like),
+        Value::Object(o) => o.values().any(template_like),
+        _ => false,
+    }
+}
+
+/// further boundary atoms of the thorough tier
+fn more_atoms() -> Vec<Value> {
+    vec![
+        json!(i64::MAX),
+        json!(i64::MIN),
+        json!(u64::MAX),
+        json!(123456789012345678i64),
+        json!(1e19),
+        json!(1e21),
+        json!(-1e-7),
+        json!(" "),
+        json!("0"),
+        json!("true"),
+        json!("null"),
+        json!("with \"quotes\" and \\ backslash"),
+        json!("line\nbreak\ttab"),
+        json!("'single'"),
+        json!("${x} `tick`"),
+        json!("日本語の長い文字列 🙂"),
     ]
 }
 
 /// all values: atoms, containers of width <= 2 over atoms, width-1 containers of those
+/// (thorough: more atoms, and arrays / objects of width 3 over the first atoms)
 pub fn values(tier: Tier) -> Vec<Value> {
-    let a = atoms();
+    let mut a = atoms();
+    if tier == Tier::Thorough {
+        a.extend(more_atoms());
+    }
     let mut v: Vec<Value> = a.clone();
     let mut level1: Vec<Value> = vec![json!([]), json!({})];
     for x in &a {
@@ -42,9 +80,25 @@ pub fn values(tier: Tier) -> Vec<Value> {
             level1.push(json!({"k": x, "m": y}));
         }
     }
+    if tier == Tier::Thorough {
+        let b = atoms();
+        for x in &b {
+            for y in &b {
+                for z in &b {
+                    level1.push(json!([x, y, z]));
+                }
+            }
+        }
+        for x in b.iter().step_by(2) {
+            for y in b.iter().step_by(3) {
+                for z in b.iter().step_by(2) {
+                    level1.push(json!({"k": x, "m": y, "z": z}));
+                }
+            }
+        }
+    }
     v.extend(level1.iter().cloned());
     let step = 1;
-    let _ = tier;
     for x in level1.iter().step_by(step) {
         v.push(json!([x]));
         v.push(json!({"n": x}));
@@ -86,7 +140,7 @@ fn class_of(v: &Value) -> String {
 
 const ROUTES: [&str; 6] = ["global", "get", "compare-in-script", "return", "set", "condition"];
 
-fn run_value(v: &Value) -> BTreeMap<&'static str, Option<Value>> {
+pub fn run_value(v: &Value) -> BTreeMap<&'static str, Option<Value>> {
     let lit = serde_json::to_string(v).unwrap();
     // the literal inside a double-quoted YAML string
     let esc = lit.replace('\\', "\\\\").replace('"', "\\\"");
@@ -226,9 +280,13 @@ impl Check for C14 {
         v
     }
     fn run_item(&self, tier: Tier, item: &Value, out: &mut ItemOut) {
-        let mut viols: BTreeMap<String, String> = BTreeMap::new();
+        let mut viols: BTreeMap<(String, String), String> = BTreeMap::new();
         if item["scenario"] == "templates" {
-            run_templates(&item["a"], &item["b"], out, &mut viols);
+            let mut tv: BTreeMap<String, String> = BTreeMap::new();
+            run_templates(&item["a"], &item["b"], out, &mut tv);
+            for (k, w) in tv {
+                viols.insert((k, String::new()), w);
+            }
             if item["a"] == 1 {
                 out.samples.push(json!({"template": "x-{{a}}{{ b }}", "a": 1, "b": "s", "expected": "x-1s"}));
             }
@@ -243,12 +301,18 @@ impl Check for C14 {
                 if !matches!(v, Value::Null | Value::Bool(false)) && v != &json!("") && v != &json!([]) && v != &json!({}) {
                     out.count("distinct_nontrivial", 1);
                 }
+                let tl = template_like(v);
                 for r in ROUTES {
+                    // four routes write the literal into the text of the model, where template syntax
+                    // is substituted by design; such a value is judged as a start variable only
+                    if tl && !matches!(r, "global" | "get") {
+                        continue;
+                    }
                     let g = got.get(r).cloned().flatten();
                     let exp = if r == "compare-in-script" || r == "condition" { json!(true) } else { v.clone() };
                     let ok = g.as_ref().map(|g| same(g, &exp)).unwrap_or(false);
                     if !ok {
-                        viols.entry(format!("value/{r}/{}", class_of(v))).or_insert(format!(
+                        viols.entry((format!("value/{r}/{}", class_of(v)), if tl { "template-like-string".to_string() } else { String::new() })).or_insert(format!(
                             "the variable value {v} through route '{r}' came back as {}",
                             g.map(|x| x.to_string()).unwrap_or("nothing (no terminal event or key missing)".into())
                         ));
@@ -260,12 +324,12 @@ impl Check for C14 {
             }
         }
         let scen = item["scenario"].as_str().unwrap_or("").to_string();
-        for (sig, what) in viols {
+        for ((sig, detail), what) in viols {
             out.violations.push(Violation {
                 property: "C14".into(),
                 sig: sig.clone(),
                 scenario: scen.clone(),
-                detail: String::new(),
+                detail,
                 what: what.clone(),
                 replay: json!({"property": "C14", "signature": sig, "what": what}),
             });
